@@ -350,7 +350,8 @@ class Operation(Unit):
         for status in (400, 401, 403, 404, 500, 503):
             for body in bodies:
                 cnt += 1
-                r = run_with_stub(self.op, status, body)
+                r = run_with_stub(self.op, status, body) or (run_with_stub(self.op, status, body, None)
+                                                              if self.op == 'authenticate' else None)
                 if r is not None:
                     fails.append(dict(call='%s with reply %d %r' % (self.op, status, body), observed=r,
                                       witness='%s:%r' % (self.op, body)))
@@ -368,12 +369,12 @@ class _Resp(object):
         return json.loads(self._body) if self._body is not None else (_ for _ in ()).throw(ValueError('no json'))
 
 
-def run_with_stub(op, status, body):
+def run_with_stub(op, status, body, client='client'):
     """Returns a description of the failure, or None."""
     orig = requests.post
     requests.post = lambda *a, **k: _Resp(status, body)
     try:
-        t = AuthenticationToken('user', 'access', 'client')
+        t = AuthenticationToken('user', 'access', client)
         t.profile.id_, t.profile.name = 'pid', 'pname'
         before = (t.username, t.access_token, t.client_token, t.profile.id_, t.profile.name)
         try:
@@ -424,9 +425,12 @@ def replay_op(op, label):
     for status in (403, 500):
         for body in ('null', '5', '"error errorMessage"', '["error", "errorMessage"]', '{}', 'not json',
                      '{"error": "E", "errorMessage": "M"}'):
-            r = run_with_stub(op, status, body)
-            if r is not None:
-                return dict(confirmed=True, call='%s with reply %d %s' % (op, status, body), observed=r)
+            for client in ('client', None, ''):
+                if client != 'client' and op not in ('authenticate',):
+                    continue
+                r = run_with_stub(op, status, body, client)
+                if r is not None:
+                    return dict(confirmed=True, call='%s (client token %r) with reply %d %s' % (op, client, status, body), observed=r)
     return dict(confirmed=False, call='%s over the stub grid' % op, observed='conforms')
 
 
